@@ -4,7 +4,10 @@ AST translator: every `isinstance(<x>, <box classes>)` test of `_dispatch`, `_di
 `draw_stacking_context` and `draw_inline_level`, in source order (the class tuples are read from the
 source text, names such as `stacking_classes` / `allowed_boxes` are resolved to their literal tuple).
 Graph translator: `issubclass` of every concrete class of `formatting_structure.boxes` against each of
-those tuples (the real class hierarchy).  The Lean model of C17 takes every class test from this
+those tuples (the real class hierarchy); and, for `gaTransformable`, the complete graph of the finite
+function "does `anchors.gather_anchors` give a box of this class with a non-empty `transform` a
+`transformation_matrix`" obtained by calling the real function on one box of every class (the AST tuple of
+its class test is recorded in the comment when the test is in the subset, whatever its polarity).  The Lean model of C17 takes every class test from this
 file, so an edit of a tuple or of the hierarchy changes the model and re-checks the theorems.
 """
 import ast
@@ -13,6 +16,7 @@ from .common import ExtractionError, find_function, parse, span_sha, write_if_ch
 
 STACKING = 'weasyprint/stacking.py'
 DRAW = 'weasyprint/draw/__init__.py'
+ANCHORS = 'weasyprint/anchors.py'
 
 # slot name -> (file, function, ordinal among the box-class isinstance tests of that function)
 SLOTS = [
@@ -113,6 +117,43 @@ def box_classes():
     return boxes, classes
 
 
+def transformable_graph(classes):
+    """{class name: bool}: gather_anchors on a real box object of every class carrying a translation."""
+    from fractions import Fraction
+
+    from weasyprint.anchors import gather_anchors
+    from weasyprint.css.properties import Dimension
+    out = {}
+    for cls in classes:
+        box = cls.__new__(cls)
+        for name in ('position_x', 'position_y', 'margin_left', 'margin_top', 'border_top_width',
+                     'border_right_width', 'border_bottom_width', 'border_left_width', 'padding_top',
+                     'padding_right', 'padding_bottom', 'padding_left', 'margin_right', 'margin_bottom'):
+            setattr(box, name, Fraction(1))
+        box.width, box.height = Fraction(20), Fraction(10)
+        box.style = {'transform': (('translate', (Dimension(Fraction(3), 'px'), Dimension(Fraction(0), 'px'))),),
+                     'transform_origin': (Dimension(Fraction(50), '%'), Dimension(Fraction(50), '%')),
+                     'bookmark_level': 'none', 'bookmark_state': 'open', 'link': None, 'anchor': None,
+                     'appearance': 'none'}
+        box.element, box.element_tag, box.bookmark_label = None, 'x', None
+        box.children, box.column_groups = (), ()
+        try:
+            gather_anchors(box, {}, [], [], {})
+        except Exception as exc:
+            raise ExtractionError(f'gather_anchors on a {cls.__name__}: {type(exc).__name__}: {exc}')
+        out[cls.__name__] = bool(box.transformation_matrix)
+    return out
+
+
+def anchors_tuple():
+    """The class tuple of the first box-class isinstance test of gather_anchors (comment only)."""
+    func = find_function(parse(ANCHORS), 'gather_anchors')
+    visitor = _Sites()
+    visitor.visit(func)
+    sites = [names for _, _, names in sorted(visitor.sites)]
+    return (sites[0] if sites else None), span_sha(ANCHORS, func)
+
+
 def generate():
     boxes, classes = box_classes()
     try:
@@ -123,7 +164,7 @@ def generate():
         source = f'fallback ({exc})'
     names = [c.__name__ for c in classes]
     lines = [
-        f'/- GENERATED by py/extract/stack_kinds.py from {STACKING}, {DRAW} (span sha {sha}) and the class',
+        f'/- GENERATED by py/extract/stack_kinds.py from {STACKING}, {DRAW}, {ANCHORS} (span sha {sha}) and the class',
         '   hierarchy of weasyprint/formatting_structure/boxes.py (issubclass graph). Do not edit. -/',
         'namespace Wp.Gen', '',
         '/-- Every class of `formatting_structure.boxes` deriving from `Box`. -/',
@@ -150,7 +191,23 @@ def generate():
         if len(members) < len(names):
             lines.append('  | _ => false')
         lines.append('')
+    graph = transformable_graph(classes)
+    try:
+        ga_tuple, ga_sha = anchors_tuple()
+    except ExtractionError:
+        ga_tuple, ga_sha = None, 'outside-ast-subset'
+    lines.append(f'/-- `gather_anchors` ({ANCHORS}, span sha {ga_sha}): a box of this class whose `transform` is not '
+                 'empty gets a')
+    lines.append('`transformation_matrix` (graph of the real function on one box per class; class test of the source: '
+                 f'`isinstance(·, ({", ".join(ga_tuple) if ga_tuple else "?"}))`). -/')
+    lines.append('def gaTransformable : Kind → Bool')
+    for n in names:
+        if graph[n]:
+            lines.append(f'  | .{n} => true')
+    if not all(graph.values()):
+        lines.append('  | _ => false')
+    lines.append('')
     lines += ['end Kind', 'end Wp.Gen', '']
     changed = write_if_changed('StackKinds', '\n'.join(lines))
     return {'name': 'StackKinds', 'changed': changed, 'source': source, 'sha256_of_source_span': sha,
-            'entries': len(names) * len(SLOTS)}
+            'entries': len(names) * (len(SLOTS) + 1)}
